@@ -483,7 +483,7 @@ OPTION_COMBOS = [(True, False, True), (True, True, True), (True, True, False), (
 
 
 def plan(lib, tier, seed, quick_n, lengths_quick=(1, 3), lengths_thorough=(1, 3), combos_quick=None, extra=None, names='ABC',
-         combos_thorough=None):
+         combos_thorough=None, quick_all_lengths=False):
     """[(extra_pre list)] - quick: quick_n skeletons (seeded rotation; all if quick_n >= len(lib)), one name length and one
     option combination each (both rotate with the seed; length 1 is where generated names A, B, ... can collide with the
     program's own); thorough: the whole library x every length x every option combination."""
@@ -499,7 +499,9 @@ def plan(lib, tier, seed, quick_n, lengths_quick=(1, 3), lengths_thorough=(1, 3)
         combos = combos_thorough or OPTION_COMBOS
     shards = []
     for i, k in enumerate(ks):
-        if tier == 'quick':
+        if tier == 'quick' and quick_all_lengths:
+            todo = [(L, combos[(k // 2 + seed + j) % len(combos)]) for j, L in enumerate(lengths_quick)]
+        elif tier == 'quick':
             todo = [(lengths_quick[(k + seed) % len(lengths_quick)], combos[(k // 2 + seed) % len(combos)])]
         else:
             todo = [(L, c) for L in lengths_thorough for c in combos]
